@@ -23,3 +23,12 @@ impl ConnectionHandle {
         self.id
     }
 }
+
+#[cfg(feature = "verif-hooks")]
+impl ConnectionHandle {
+    /// Returns the raw id of the connection (verification hook).
+    #[doc(hidden)]
+    pub fn verif_raw_id(&self) -> usize {
+        self.id.verif_raw()
+    }
+}
